@@ -296,6 +296,12 @@ func collectUnionArities(env *dsl.Environment) []int {
 							}
 							self.Visit(tc.OldType())
 						}
+						// removed fields are still read (and discarded) with their previous types
+						for i, f := range change.PreviousDefinition().(*dsl.RecordDefinition).Fields {
+							if change.FieldRemoved[i] {
+								self.Visit(f.Type)
+							}
+						}
 					case *dsl.NamedTypeChange:
 						if tc := change.TypeChange; tc != nil {
 							self.Visit(tc.OldType())
